@@ -1,5 +1,5 @@
 (* Proofs about KV.Yaml.Fmt (the canonical formatter).  The model file contains no proofs. *)
-From KV Require Import Yaml.Fmt Yaml.FmtSort Yaml.FmtTablesRef Yaml.Resolve11.
+From KV Require Import Yaml.Fmt Yaml.FmtSort Yaml.FmtTablesRef Yaml.Resolve11 Yaml.Resolve11Proofs.
 From Coq Require Import Permutation Sorted.
 
 Ltac inv H := inversion H; subst; clear H.
@@ -1700,32 +1700,6 @@ Qed.
 
 (* ---------- YAML 1.1 resolution inside the model (Yaml/Resolve11.v) ---------- *)
 
-Lemma safe_char_not_newline c : safe_char c = true -> negb (code c =? 10)%N = true.
-Proof.
-  destruct c as [b0 b1 b2 b3 b4 b5 b6 b7].
-  destruct b0, b1, b2, b3, b4, b5, b6, b7; vm_compute; auto.
-Qed.
-
-Lemma in_fragment_plain v : in_fragment v = true -> (String.eqb v "" || has_newline v) = false.
-Proof.
-  unfold in_fragment. rewrite !andb_true_iff. intros [[[[F A] _] _] _].
-  destruct v as [|c r]; [discriminate|]. cbn [String.eqb orb].
-  unfold has_newline. replace (all_chars (fun c0 => negb (code c0 =? 10)%N) (String c r)) with true; auto.
-  symmetry. clear F. induction (String c r) as [|d t IH]; cbn in *; auto.
-  apply andb_true_iff in A. destruct A as [A1 A2]. rewrite (safe_char_not_newline _ A1), IH; auto.
-Qed.
-
-Lemma resolve11_fragment v r : resolve11 v = Some r -> in_fragment v = true.
-Proof. unfold resolve11. destruct (in_fragment v); cbn; auto; discriminate. Qed.
-
-Lemma nonstr_m_resolved o v r : resolve11 v = Some r -> nonstr_m o v = negb (rtag_eqb r RStr).
-Proof.
-  intros H. unfold nonstr_m. rewrite (in_fragment_plain _ (resolve11_fragment _ _ H)), H. reflexivity.
-Qed.
-
-Lemma hastype_m_resolved o v r t : resolve11 v = Some r -> hastype_m o v t = rtag_has_type r t.
-Proof. intros H. unfold hastype_m. rewrite H. reflexivity. Qed.
-
 Section SchemaQuoteResolved.
   Variable o1 : string -> bool.               (* residual oracles, consulted outside the fragment only *)
   Variable o2 : string -> string -> bool.
@@ -1783,3 +1757,33 @@ Example schema_quote_examples : forall o1 o2,
   (* image: nginx : untouched *)
   fmt_nonstring (nonstr_m o1) (hastype_m o2) ["string"] "" plain "nginx" = plain.
 Proof. intros o1 o2. repeat split; vm_compute; reflexivity. Qed.
+
+(* ---------- the reparse law on the alias-free fragment, for FormatFilter.Filter ---------- *)
+
+Theorem filter_doc_reparse nonstr hastype srt : S1 srt -> forall s n n',
+  alias_free n = true -> filter_doc nonstr hastype srt s n = Ok n' ->
+  alias_free n' = true /\ anchors_ok n' = true.
+Proof.
+  intros HS1 s n n' AF H.
+  assert (Same : alias_free n = true /\ anchors_ok n = true).
+  { split; auto. unfold anchors_ok. destruct (alias_free_scan n [] AF) as [s' E]. rewrite E. reflexivity. }
+  unfold filter_doc in H.
+  destruct (get_strategy n) as [st| | |]; cbn [bind] in H; try discriminate.
+  destruct st; [|inv H; exact Same].
+  destruct (get_field "kind" n) as [[kn|]| | |]; cbn [bind] in H; try discriminate; [|inv H; exact Same].
+  destruct (get_field "apiVersion" n) as [[an|]| | |]; cbn [bind] in H; try discriminate; [|inv H; exact Same].
+  eapply fmt_alias_free; eauto.
+Qed.
+
+(* non-vacuity: a document with an anchor but no alias is alias-free, gets reordered, and stays parsable *)
+Definition wit_anchor_only : cnode :=
+  wm [("zeta", CScalar (mkHdr "" "" "" "x" "" 0) "1"); ("kind", ws "K"); ("apiVersion", ws "v1"); ("alpha", ws "2")].
+
+Example wit_anchor_only_reparse : forall nonstr hastype, exists n',
+  alias_free wit_anchor_only = true /\
+  filter_doc nonstr hastype isort SNil wit_anchor_only = Ok n' /\ n' <> wit_anchor_only /\
+  anchors_ok n' = true.
+Proof.
+  intros nonstr hastype. eexists. split; [vm_compute; reflexivity|]. split; [vm_compute; reflexivity|].
+  split; [apply cnode_neq; vm_compute; reflexivity|vm_compute; reflexivity].
+Qed.
